@@ -76,7 +76,7 @@ static void root19(void) { M19.first_seen = 0; }
 
 /* ------------------------------------------------------------------ c09 */
 static const pev RESET0 = { .opcode = 8, .tos = 0, .realsrc = ST_M1, .ethsrc = ST_M1, .realdst = ST_BC, .ethdst = ST_BC, .own_pos = -1 };
-static vf_snap *fresh_snap[2];   /* a freshly started responder, per state of the platform environment */
+static vf_snap *fresh_snap[3];   /* a freshly started responder, per state of the platform environment */
 static uint64_t seeds_tried;
 
 static void on_new_state(int depth) {
@@ -84,7 +84,7 @@ static void on_new_state(int depth) {
     vf_path p; e1_current_path(&p);
     vf_trace_clear();
     drv_linux(&RESET0, 0);
-    vf_snap *snaps[E3_MAXW] = { vf_snapshot(NULL, 0), fresh_snap[W.env.icon_epoch & 1], NULL };
+    vf_snap *snaps[E3_MAXW] = { vf_snapshot(NULL, 0), fresh_snap[W.env.icon_epoch % 3], NULL };
     seeds_tried++;
     e3_add_seed(snaps, p.ev, p.n);
     free(snaps[0]);
@@ -144,7 +144,7 @@ int main(int argc, char **argv) {
     } else if (mode == 3 || mode == 19) {
         e1_run(&cfg, &st);
     } else {
-        for (int ep = 0; ep < 2; ep++) { vf_world_reset(); W.env.icon_epoch = (uint32_t)ep; fresh_snap[ep] = vf_snapshot(NULL, 0); }
+        for (int ep = 0; ep < 3; ep++) { vf_world_reset(); W.env.icon_epoch = (uint32_t)ep; fresh_snap[ep] = vf_snapshot(NULL, 0); }
         e3_begin(&c3);
         cfg.on_new_state = on_new_state; cfg.model_size = 0; cfg.model = NULL;
         e1_run(&cfg, &st);
